@@ -285,16 +285,20 @@ def print_enum(E, derives, std_derives=("Debug", "Clone", "PartialEq"), strum_pa
     for x in E.get("xattrs", []):
         lines.append(x)
     lines.append("%s enum %s%s%s {" % (vis, E["name"], g["decl"], g.get("where", "")))
-    for v in E["variants"]:
+    mx = E.get("macro_expr") or None
+    for k, v in enumerate(E["variants"]):
+        if mx and mx["k"] == k:
+            # an explicit discriminant assembled by the macro_rules! helper from an expression fragment
+            v = dict(v, discx="$e0 * 2 + %d" % mx["r"])
         lines += print_variant(v, E.get("split"))
     lines.append("}")
     text = "\n".join(lines)
-    if E.get("via_macro"):
-        text = wrap_in_macro(text, E["name"])
+    if E.get("via_macro") or mx:
+        text = wrap_in_macro(text, E["name"], exprs=[mx["a"]] if mx else [])
     return text
 
 
-def wrap_in_macro(text, name):
+def wrap_in_macro(text, name, exprs=()):
     """the same item, declared through a macro_rules! helper; paths the user passes to strum (parse_err_fn / parse_err_ty) arrive
     as macro arguments, i.e. with the caller's syntax context"""
     import re
@@ -313,6 +317,9 @@ def wrap_in_macro(text, name):
             text = text.replace(m.group(0), "%s = %s" % (kw, var))
             params.append("%s:%s" % (var, frag))
             args.append(m.group(1).strip())
+    for k, ex in enumerate(exprs):
+        params.append("$e%d:expr" % k)
+        args.append(ex)
     body = "\n".join("        " + l for l in text.splitlines())
     return ("macro_rules! declare_%s {\n    (%s) => {\n%s\n    };\n}\ndeclare_%s!(%s);"
             % (name.lower(), ", ".join(params), body, name.lower(), ", ".join(args)))
